@@ -19,7 +19,8 @@ CMDS = ["address", "export", "public-key", "sign-message", "sign-transaction", "
         "hash-transaction", "hash-typeddata", "hash-typeddata-message-hash", "hash-data"]
 REQUIRED = (["ok-" + c for c in CMDS] + ["selector-default", "selector-index-nonzero", "selector-index-2^31-1", "selector-path", "password-nonempty",
             "flags-vs-env-identical", "both-selectors-flag+flag-refused", "both-selectors-flag+env-refused", "both-selectors-env+env-refused",
-            "input-file", "input-stdin", "sign-raw-digest>=n-valid", "input-stdin>64KiB"])
+            "input-file", "input-stdin", "sign-raw-digest>=n-valid", "input-stdin>64KiB", "flag-beats-environment",
+            "explicit-empty-password-flag-beats-environment"])
 
 
 def expected_sig_text(key, digest):
@@ -105,6 +106,10 @@ def judge_cmd(case, obs):
         v.bucket("selector-index-2^31-1")
     if xm["password"]:
         v.bucket("password-nonempty")
+    if xm.get("precedence"):
+        v.bucket("flag-beats-environment")
+        if not xm["password"]:
+            v.bucket("explicit-empty-password-flag-beats-environment")
     if xm.get("channel"):
         v.bucket("input-" + xm["channel"])
         if xm["channel"] == "stdin" and len(xm.get("input", "")) > 2 * 65536:
@@ -199,6 +204,19 @@ def gen(shard, rng, tier):
             for style in ("flags", "env"):
                 aargv, env = cligen.account_args(rng, acc, style)
                 steps.append({"cli": {"argv": build(aargv), "env": env, "files": files, "stdin_hex": stdin_hex}})
+        elif uses_account and rng.random() < 0.25:
+            # an explicit flag wins over the environment variable of the same option (also an explicitly empty --password)
+            aargv, env = cligen.account_args(rng, acc, "flags")
+            if not any(a.startswith("--password") for a in aargv):
+                aargv.append("--password=" + acc["password"])
+            decoy = cligen.rand_account(rng, simple=True)
+            env = {"MNEMONIC": " ".join(decoy["words"]), "PASSWORD": rng.choice(["decoy", "TREZOR", " "])}
+            if sel is not None and sel[0] == "index":
+                env["ACCOUNT_INDEX"] = str(sel[1] + 1 if sel[1] < 2**31 - 1 else 3)
+            elif sel is not None:
+                env["HD_PATH"] = "m/44'/60'/0'/0/9"
+            xm["precedence"] = True
+            steps.append({"cli": {"argv": build(aargv), "env": env, "files": files, "stdin_hex": stdin_hex}})
         else:
             aargv, env = cligen.account_args(rng, acc) if uses_account else ([], {})
             steps.append({"cli": {"argv": build(aargv), "env": env, "files": files, "stdin_hex": stdin_hex}})
